@@ -76,7 +76,7 @@ Section Validate.
       | RNever => Ok false
       | RConst CNull => Ok (is_nullish v)
       | RConst c => Ok (cst_strict_eqb c v)
-      | RRegex items _ => Ok (match v with VStr s => re_search (tpl_re items) s | _ => false end)
+      | RRegex items _ => Ok (match v with VStr s => re_full (tpl_re items) s | _ => false end)   (* new RegExp(`^(?:${source})$`, "s") *)
       | RDate => Ok (match v with VDate _ => true | _ => false end)
       | RBigInt => Ok (match v with VBig _ => true | _ => false end)
       | RTypedArray ctor => Ok (typed_array_is ctor v)
